@@ -11,6 +11,53 @@
 #define VF_MAIN_TU
 #include "strsys.h"
 
+// Results of assignment expressions are the object assigned to: what is done with (s = t), (s += t), s.set(...) chains is done to s.
+struct ExprSys {
+    uint64_t n_checks = 0;
+    const char *name() const { return "identity of assignment / append results, chained use"; }
+    size_t op_count() const { return 0; }
+    bool enabled(size_t) const { return false; }
+    std::string op_name(size_t) const { return ""; }
+    void reset() {}
+    void apply(size_t, bool, hx::Fails &) {}
+    std::string key() const { return "expr"; }
+    bool nontrivial() const { return true; }
+    void on_new_state(hx::Fails &f)
+    {
+        static const char *const V[4] = {"ab", "a value that is long enough for the heap", "0123456789abcdef", ""};
+        auto bytes = [](const S &x) { return std::string(x.c_str(), x.size()); };
+        for (int i = 0; i < 4; ++i)
+            for (int j = 0; j < 4; ++j) {
+                vf::Outcome oc = vf::guard([&] {
+                    auto chk = [&](const char *what, const void *r, const S &a, const std::string &want) {
+                        ++n_checks;
+                        if (r != (const void *)&a) f.push_back(hx::Fail{strf("c04:%s:result-is-not-the-target", what), strf("the result of %s does not denote the string it was applied to", what)});
+                        else if (bytes(a) != want) f.push_back(hx::Fail{strf("c04:%s:target-wrong-value", what), strf("after %s the string holds %s", what, vf::vis(bytes(a)).c_str())});
+                    };
+                    const std::string vi = V[i], vj = V[j];
+                    S b = S::from_validated(vj.data(), vj.size()), c = ST_LITERAL("third value, also long enough for the heap");
+                    { S a = S::from_validated(vi.data(), vi.size()); auto &&r = (a = b); chk("copy assignment", &r, a, vj); }
+                    { S a = S::from_validated(vi.data(), vi.size()); S m = b; auto &&r = (a = std::move(m)); chk("move assignment", &r, a, vj); }
+                    { S a = S::from_validated(vi.data(), vi.size()); auto &&r = (a = vj.c_str()); chk("= const char*", &r, a, vj); }
+                    { S a = S::from_validated(vi.data(), vi.size()); auto &&r = (a = vj); chk("= std::string", &r, a, vj); }
+                    { S a = S::from_validated(vi.data(), vi.size()); auto &&r = (a = ST::char_buffer(vj.data(), vj.size())); chk("= char_buffer&&", &r, a, vj); }
+                    { S a = S::from_validated(vi.data(), vi.size()); auto &&r = (a += b); chk("+= string", &r, a, vi + vj); }
+                    { S a = S::from_validated(vi.data(), vi.size()); auto &&r = (a += vj.c_str()); chk("+= const char*", &r, a, vi + vj); }
+                    { S a = S::from_validated(vi.data(), vi.size()); auto &&r = (a += 'x'); chk("+= char", &r, a, vi + "x"); }
+                    { S a = S::from_validated(vi.data(), vi.size()); auto &&r = (a += U'\u20ac'); chk("+= char32_t", &r, a, vi + "\xE2\x82\xAC"); }
+                    { S a = S::from_validated(vi.data(), vi.size()); (a = b) = c; chk("(a = b) = c", &a, a, bytes(c)); }
+                    { S a = S::from_validated(vi.data(), vi.size()); S m = b; (a = std::move(m)) = c; chk("(a = std::move(b)) = c", &a, a, bytes(c)); }
+                    { S a = S::from_validated(vi.data(), vi.size()); (a += b) += c; chk("(a += b) += c", &a, a, vi + vj + bytes(c)); }
+                    { S a = S::from_validated(vi.data(), vi.size()); (a = b).clear(); chk("(a = b).clear()", &a, a, ""); }
+                });
+                if (!oc.ok()) f.push_back(hx::Fail{strf("c04:assignment-results:%s", vf::outkind_name(oc.kind)), oc.str()});
+            }
+        hx::note_phase("reads");
+    }
+    void samples(std::vector<std::string> &out) const { out.push_back(strf("assignment expressions: %llu checks", (unsigned long long)n_checks)); }
+    void counters(std::map<std::string, uint64_t> &c) const { c["assignment-expression-checks"] += n_checks; }
+};
+
 static void build(std::vector<hx::Job> &jobs, const vf::Opts &o, std::string &rule, std::vector<std::string> &assumptions)
 {
     build_const_ops();
@@ -30,6 +77,11 @@ static void build(std::vector<hx::Job> &jobs, const vf::Opts &o, std::string &ru
     hx::Limits lim;
     lim.max_depth = 4;
     for (size_t n : SIZES) jobs.push_back(hx::make_job<StrSys>([n]() { return new StrSys(n); }, lim));
+    {
+        hx::Limits l1;
+        l1.max_depth = 0;
+        jobs.push_back(hx::make_job<ExprSys>([]() { return new ExprSys(); }, l1));
+    }
 #ifndef VF_ASAN
     if (o.thorough()) {
         hx::Limits deep;
